@@ -211,11 +211,30 @@ func (f *QuadraticFieldExtensionImpl[BFP, A, BF]) Sqrt(v *QuadraticFieldExtensio
 	ok4 := BFP(&com).Inv(&com)
 	BFP(&com).Mul(&com, &v.U1)
 
+	// Elements of the base field (v.U1 == 0) need their own branch: the formula above divides by twice the real
+	// part of the root, so it cannot produce the roots (sqrt(U0), 0) or (0, sqrt(U0/beta)), one of which always exists.
+	var baseRoot, imagRoot, betaInv, zero BF
+	BFP(&zero).SetZero()
+	okBase := BFP(&baseRoot).Sqrt(&v.U0)
+	BFP(&betaInv).SetOne()
+	arith.MulByQuadraticNonResidue(&betaInv, &betaInv)
+	okBetaInv := BFP(&betaInv).Inv(&betaInv)
+	BFP(&imagRoot).Mul(&v.U0, &betaInv)
+	okImag := okBetaInv & BFP(&imagRoot).Sqrt(&imagRoot)
+	inBase := BFP(&v.U1).IsZero()
+	useBase := inBase & okBase
+	useImag := inBase & okBase.Not() & okImag
+
 	BFP(&f.U0).Select(okp&ok4, &f.U0, &pos)
 	BFP(&f.U0).Select(okn&ok4, &f.U0, &neg)
 	BFP(&f.U1).Select((okp|okn)&ok4, &f.U1, &com)
 
-	return (okp | okn) & ok4
+	BFP(&f.U0).Select(useBase, &f.U0, &baseRoot)
+	BFP(&f.U1).Select(useBase, &f.U1, &zero)
+	BFP(&f.U0).Select(useImag, &f.U0, &zero)
+	BFP(&f.U1).Select(useImag, &f.U1, &imagRoot)
+
+	return ((okp | okn) & ok4) | useBase | useImag
 }
 
 func (f *QuadraticFieldExtensionImpl[BFP, A, BF]) IsNonZero() ct.Bool {
